@@ -91,8 +91,17 @@ fn drive_worker(
             .args(["--seed", &seed.to_string(), "--runs", &b.runs.to_string()])
             .args(["--w", &w.to_string(), "--nw", &nw.to_string(), "--start", &start.to_string()])
             .args(["--out", &out_dir.to_string_lossy(), "--tag", &format!("{}.r{}", tagname, respawns)])
-            .stdout(Stdio::piped())
-            .stderr(Stdio::inherit());
+            .stdout(Stdio::piped());
+        // a dying worker's last words (allocation failure, stack overflow, backtraces) go to a
+        // log file, not to the console: the verdict is what the controller prints
+        match std::fs::OpenOptions::new().create(true).append(true).open(out_dir.join("workers.stderr")) {
+            Ok(f) => {
+                cmd.stderr(Stdio::from(f));
+            }
+            Err(_) => {
+                cmd.stderr(Stdio::null());
+            }
+        }
         if per_index {
             cmd.arg("--per-index");
         }
